@@ -1044,6 +1044,10 @@ type SchemaInput struct {
 	Variant string  `json:"variant"`
 	Cfg     ref.Cfg `json:"cfg"`
 	Kind    int     `json:"kind"` // rows event kind of the second transaction
+	// LookupFails: the mapper's second lookup (the table under its new id) fails
+	// (the table was dropped and re-created, the mapper's connection is gone): the
+	// stream must end with that error, it must not go on with what it knew
+	LookupFails bool `json:"lookup_fails,omitempty"`
 }
 
 func checkSchema(in SchemaInput) string {
@@ -1146,12 +1150,43 @@ func checkSchemaWith(in SchemaInput, v1, v2 *ref.Table, row func(t *ref.Table, k
 	}
 	mapper := hx.NewMapper(v1)
 	mapper.Versions = map[string][]*ref.Table{"shop.gauge": {v1, v2}}
+	if in.LookupFails {
+		mapper.FailAt = 1
+	}
 	out := Run(h, Opts{Start: start, ServerID: 3, LockStep: true, Mapper: mapper})
 	if out.Hung {
 		return "HUNG"
 	}
 	if out.StreamPanic[0] != "" {
 		return "panic in Stream: " + out.StreamPanic[0]
+	}
+	if in.LookupFails {
+		if v2.ID == v1.ID {
+			return "" // the same id announced again: no second lookup
+		}
+		if len(mapper.Calls) < 2 {
+			return fmt.Sprintf("the table was announced under a new id but the mapper was asked %d time(s): a lookup that would have failed was never made", len(mapper.Calls))
+		}
+		if out.StreamErr[0] == nil {
+			return "the lookup of the table under its new id failed but Stream returned nil"
+		}
+		second := len(served)
+		for i, e := range served {
+			if e.Kind == ref.ATableMap && e.Table == v2 {
+				second = i
+				break
+			}
+		}
+		var before []ref.ExpTx
+		for _, e := range exp {
+			if e.CommitIndex < second {
+				before = append(before, e)
+			}
+		}
+		if d := hx.CompareAll(before, out.Snaps()); d != "" {
+			return "deliveries before the failed lookup: " + d
+		}
+		return ""
 	}
 	if out.StreamErr[0] != nil {
 		return "Stream failed on a well-formed binlog: " + clip(out.StreamErr[0].Error(), 200)
@@ -1161,12 +1196,22 @@ func checkSchemaWith(in SchemaInput, v1, v2 *ref.Table, row func(t *ref.Table, k
 
 // RunSchemaChange is shared by C10 (signedness comes from the mapper's answer
 // for the table id in force) and C15.
-func RunSchemaChange(r *chk.Run) {
+func RunSchemaChange(r *chk.Run) { runSchemaChange(r, false) }
+
+// RunSchemaLookupFails is the native half of C06: the lookup of a table that
+// comes back under a new id fails.
+func RunSchemaLookupFails(r *chk.Run) {
+	runSchemaChange(r, true)
+	r.Rule("native half (one schedule per execution): a table is announced, changed, altered and announced again under a new id; the mapper's second lookup fails; oracle: the mapper is asked again, Stream returns the failure, nothing of the second statement is delivered")
+	r.SetExhaustive(true)
+}
+
+func runSchemaChange(r *chk.Run, lookupFails bool) {
 	var n int64
 	for _, cfg := range Cfgs() {
 		for _, v := range []string{"sign", "name", "fsp", "fsp0", "meta"} {
 			for kind := 0; kind < 3; kind++ {
-				in := SchemaInput{Variant: v, Cfg: cfg, Kind: kind}
+				in := SchemaInput{Variant: v, Cfg: cfg, Kind: kind, LookupFails: lookupFails}
 				n++
 				why := checkSchema(in)
 				if why == "HUNG" {
@@ -2160,19 +2205,31 @@ type NestInput struct {
 
 func nestHistories(in NestInput) (*ref.History, *ref.History) {
 	mk := func(cfg ref.Cfg, variant bool, ts0 uint32, file string) *ref.History {
-		t := scriptTable(1, variant)
-		var u *ref.Table
-		if variant {
-			u = altTable('a', 102)
-		} else {
-			u = TB(102)
-		}
-		urow := func(k int64) ref.Image {
-			if variant {
-				return altRow(u, k)
+		// the same ids and (for the first table) the same name on both masters; the
+		// definitions differ in signedness at every integer column (the values have
+		// their top bit set), in a length-prefix width and in the column count
+		var t, u *ref.Table
+		var trow, urow func(k int64) ref.Image
+		if !variant {
+			t = &ref.Table{ID: 101, DB: "shop", Name: "item", Flags: 1, Cols: []ref.Column{ref.ColInt(ref.TLong, "id", false), ref.ColVarchar("label", 40), ref.ColInt(ref.TShort, "qty", true)}}
+			u = &ref.Table{ID: 102, DB: "shop", Name: "audit", Flags: 1, Cols: []ref.Column{ref.ColInt(ref.TLongLong, "seq", true), ref.ColBlob("note", 2)}}
+			trow = func(k int64) ref.Image {
+				return ref.Image{ref.VInt(ref.TLong, -k, false), ref.VVarchar(40, []byte(fmt.Sprintf("label-%d", k))), ref.VInt(ref.TShort, 40000+k, true)}
 			}
-			return scriptRow(u, k)
+			urow = func(k int64) ref.Image {
+				return ref.Image{ref.VUint64(1<<63 + uint64(k)), ref.VBlob(2, []byte(fmt.Sprintf("n%d", k)))}
+			}
+		} else {
+			t = &ref.Table{ID: 101, DB: "shop", Name: "item", Flags: 1, Cols: []ref.Column{ref.ColInt(ref.TLong, "id", true), ref.ColVarchar("label", 300), ref.ColInt(ref.TLong, "qty", false)}}
+			u = &ref.Table{ID: 102, DB: "shop", Name: "refund", Flags: 1, Cols: []ref.Column{ref.ColInt(ref.TLong, "rid", false), ref.ColVarchar("reason", 40), ref.ColInt(ref.TShort, "cents", true)}}
+			trow = func(k int64) ref.Image {
+				return ref.Image{ref.VInt(ref.TLong, 4000000000+k, true), ref.VVarchar(300, []byte(fmt.Sprintf("other-%d", k))), ref.VInt(ref.TLong, -k, false)}
+			}
+			urow = func(k int64) ref.Image {
+				return ref.Image{ref.VInt(ref.TLong, -k, false), ref.VVarchar(40, []byte(fmt.Sprintf("alt-%d", k))), ref.VInt(ref.TShort, 50000+k, true)}
+			}
 		}
+		scriptRow := func(_ *ref.Table, k int64) ref.Image { return trow(k) }
 		evs := []*ref.AEvent{
 			ref.Q(ts0, "shop", "BEGIN"), ref.TM(ts0, t), ref.R(ts0, ref.RowWrite, t, ref.RowChange{After: scriptRow(t, 1)}, ref.RowChange{After: scriptRow(t, 6)}), ref.X(ts0, 1),
 			ref.Q(ts0+1, "shop", "BEGIN"), ref.TM(ts0+1, t), ref.TM(ts0+1, u),
@@ -2414,4 +2471,129 @@ func RunQueryEnvelope(r *chk.Run) {
 	}
 	hr.finish()
 	r.Set("query_envelope_histories", fmt.Sprintf("%d: 2 histories of statements in every role (BEGIN / COMMIT / DDL / SET / DML text / inside and outside transactions) x %d session settings on every query event (each bit of flags2 and sql_mode, 16 other status variables, 7 header flag values)", n, len(envs)))
+}
+
+// ---- partial row images (binlog_row_image=MINIMAL / NOBLOB) ------------------------------
+
+// PartialInput is one execution of the partial-image history.
+type PartialInput struct {
+	Cfg  ref.Cfg `json:"cfg"`
+	Wipe bool    `json:"wipe"` // the handler completes / overwrites what it got (hx.Wipe); otherwise it keeps everything
+}
+
+func partialHistory(cfg ref.Cfg) *ref.History {
+	t := &ref.Table{ID: 108, DB: "shop", Name: "orders", Flags: 1, Cols: []ref.Column{
+		ref.ColInt(ref.TLong, "id", false), ref.ColVarchar("name", 40), ref.ColInt(ref.TShort, "qty", true),
+		ref.ColFsp(ref.TTimestamp2, "updated_at", 3), ref.ColDecimal("amt", 10, 2), ref.ColDecimal("price", 20, 6),
+		ref.ColFsp(ref.TDateTime2, "created", 6), ref.ColFsp(ref.TTime2, "took", 2), ref.ColJSON("doc", 4), ref.ColBlob("note", 2)}}
+	A := ref.Cell{Absent: true}
+	full := func(k int64) ref.Image {
+		return ref.Image{ref.VInt(ref.TLong, k, false), ref.VVarchar(40, []byte(fmt.Sprintf("name-%d", k))), ref.VInt(ref.TShort, 40000+k, true),
+			ref.VTimestamp2(3, 1490106309+uint32(k), 765000, time.Local), ref.VDecimal(10, 2, fmt.Sprintf("-1234567%d.91", k%10)), ref.VDecimal(20, 6, fmt.Sprintf("2718281828459%d.452353", k%10)),
+			ref.VDateTimeFsp(6, 2017, 3, 21, 14, 25, 9, 765432), ref.VTime2(2, false, 12, 34, 56, 780000), {Raw: []byte{0, 0, 0, 0}, Text: []byte("'null'")}, ref.VBlob(2, []byte(fmt.Sprintf("note-%d", k)))}
+	}
+	pick := func(img ref.Image, cols ...int) ref.Image {
+		out := make(ref.Image, len(img))
+		for i := range out {
+			out[i] = A
+		}
+		for _, c := range cols {
+			out[c] = img[c]
+		}
+		return out
+	}
+	ts := uint32(1700000000)
+	evs := []*ref.AEvent{
+		// key-only before image, the changed columns in the after image; two rows, then one more event
+		ref.Q(ts, "shop", "BEGIN"), ref.TM(ts, t),
+		ref.R(ts, ref.RowUpdate, t, ref.RowChange{Before: pick(full(1), 0), After: pick(full(11), 1, 3)}, ref.RowChange{Before: pick(full(2), 0), After: pick(full(12), 1, 3)}),
+		ref.R(ts, ref.RowUpdate, t, ref.RowChange{Before: pick(full(3), 0), After: pick(full(13), 1, 3)}),
+		ref.X(ts, 1),
+		// a table without a key: the whole row before, one DECIMAL / one temporal after
+		ref.Q(ts+1, "shop", "BEGIN"), ref.TM(ts+1, t),
+		ref.R(ts+1, ref.RowUpdate, t, ref.RowChange{Before: full(4), After: pick(full(14), 5)}, ref.RowChange{Before: full(5), After: pick(full(15), 5)}),
+		ref.R(ts+1, ref.RowUpdate, t, ref.RowChange{Before: pick(full(6), 0, 4), After: pick(full(16), 6, 7)}),
+		ref.R(ts+1, ref.RowUpdate, t, ref.RowChange{Before: pick(full(7), 0), After: pick(full(17), 8, 2)}),
+		// the k-th present column is another DECIMAL (of another size) in each image
+		ref.R(ts+1, ref.RowUpdate, t, ref.RowChange{Before: pick(full(18), 0, 4), After: pick(full(19), 1, 5)}, ref.RowChange{Before: pick(full(20), 0, 4), After: pick(full(21), 1, 5)}),
+		ref.R(ts+1, ref.RowUpdate, t, ref.RowChange{Before: pick(full(22), 5, 9), After: pick(full(23), 4, 9)}),
+		ref.X(ts+1, 2),
+		// inserts and deletes with partial images, the table announced once for both
+		ref.Q(ts+2, "shop", "BEGIN"), ref.TM(ts+2, t),
+		ref.R(ts+2, ref.RowWrite, t, ref.RowChange{After: pick(full(8), 0, 3, 7)}, ref.RowChange{After: pick(full(9), 0, 3, 7)}),
+		ref.R(ts+2, ref.RowDelete, t, ref.RowChange{Before: pick(full(8), 0)}),
+		ref.R(ts+2, ref.RowWrite, t, ref.RowChange{After: pick(full(10), 9, 8, 5, 4)}),
+		ref.X(ts+2, 3),
+	}
+	h := &ref.History{Cfg: cfg, Files: []*ref.File{{Name: "mysql-bin.000001", Events: evs}}}
+	h.Layout()
+	return h
+}
+
+func checkPartial(in PartialInput) string {
+	h := partialHistory(in.Cfg)
+	start := ref.Position{File: "mysql-bin.000001", Pos: 4}
+	served, _ := h.Serve(start.File, 4)
+	exp, stop := ref.Expect(served, start)
+	if stop != nil {
+		return "generator error: " + stop.Why
+	}
+	out := Run(h, Opts{Start: start, ServerID: 3, LockStep: true, KeepTx: !in.Wipe, Wipe: in.Wipe})
+	if out.Hung {
+		return "HUNG"
+	}
+	if out.StreamPanic[0] != "" {
+		return "panic in Stream: " + firstLine(out.StreamPanic[0])
+	}
+	if out.StreamErr[0] != nil {
+		return "Stream failed on a well-formed binlog: " + clip(out.StreamErr[0].Error(), 200)
+	}
+	if d := hx.CompareAll(exp, out.Snaps()); d != "" {
+		if in.Wipe {
+			return "the handler overwrites everything it is given (as a consumer that completes a partial image in place does): " + d
+		}
+		return d
+	}
+	for i, d := range out.Deliveries {
+		if d.Tx == nil {
+			continue
+		}
+		if diff := d.Snap.Diff(hx.Snapshot(d.Tx)); diff != "" {
+			return fmt.Sprintf("delivery %d changed after it was delivered: %s", i, diff)
+		}
+		if why := hx.AliasProbe(d.Tx); why != "" {
+			return fmt.Sprintf("delivery %d: %s", i, why)
+		}
+	}
+	return ""
+}
+
+// RunPartialImages is shared by C08 (scale half), C11, C12, C13 and C15.
+func RunPartialImages(r *chk.Run) {
+	var n int64
+	for _, cfg := range Cfgs() {
+		for _, wipe := range []bool{false, true} {
+			in := PartialInput{Cfg: cfg, Wipe: wipe}
+			n++
+			if why := checkPartial(in); why != "" && why != "HUNG" {
+				r.Report(chk.Violation{Key: "partial-images", What: fmt.Sprintf("cfg=%s wipe=%v: %s", CfgName(cfg), wipe, why), Kind: "partial", Replay: in, Recheck: func() string { return checkPartial(in) }})
+			}
+		}
+	}
+	r.Eval(n)
+	r.DistinctN(n)
+	r.Set("partial_image_executions", fmt.Sprintf("%d: a table of 10 columns (integers, VARCHAR, TIMESTAMP(3), two DECIMALs of different size, DATETIME(6), TIME(2), JSON, BLOB) changed with partial row images (key-only and whole-row before images, one to four columns after; several rows and several events behind one table map; partial inserts and deletes), under every wire configuration, with a handler that keeps everything and with one that overwrites everything it is given", n))
+}
+
+// ReplayPartial replays a partial-image execution.
+func ReplayPartial(input json.RawMessage) (bool, string) {
+	var in PartialInput
+	if err := json.Unmarshal(input, &in); err != nil {
+		return false, err.Error()
+	}
+	why := checkPartial(in)
+	if why == "" {
+		return false, "every image is delivered as logged"
+	}
+	return true, why
 }
